@@ -1,6 +1,7 @@
 (* C08 — Whitespace is skipped before every token of skipping rules and nowhere else. *)
 From PegV Require Import Utf8 Utf8Facts State Terminals TerminalsSpec TerminalsOk Syntax Fields
   FieldsFacts GetFieldsFacts Literals LiteralsFacts Model Spec SpecPos ShapeFacts ErrLog Sim Conform ConformX Extracted.
+From PegV Require CleanFrame Local LocalConform.
 
 Theorem C08_facts :
   Extracted.file_codegen_src_common_rs = true /\ Extracted.file_codegen_src_rule_rs = true /\
@@ -72,3 +73,18 @@ Proof.
   destruct (is_ws_char c) eqn:E; cbn; [split; [constructor; auto|exact IH2]|split; [constructor|exact E]].
 Qed.
 Print Assumptions C08_longest.
+
+(* the same for the unmarked part of ANY grammar (Local.v: marked rules elsewhere cannot influence it) *)
+Theorem C08_points_clean_part :
+  forall (ustate : Type) (hk : hooks ustate) (shk : shooks) (g : grammar) (clean : name -> bool),
+    pure_hooks ustate hk shk ->
+    (forall n, clean n = true -> CleanFrame.rule_clean g clean n) ->
+    (forall n r, clean n = true -> find_rule g n = Some r -> CleanFrame.eclean clean (r_def r) = true) ->
+    clean n_Whitespace = true ->
+    forall fuel rule_name cs u, clean rule_name = true -> all_scalar cs ->
+      conforms cs
+        (fst (m_parse ustate Extracted.scfg Extracted.tcfg Extracted.fcfg Extracted.rcfg hk g
+                      fuel rule_name (encode_str cs) u))
+        (s_parse Extracted.fcfg shk (Local.unmarkb true g) true fuel rule_name cs).
+Proof. exact LocalConform.clean_conforms. Qed.
+Print Assumptions C08_points_clean_part.
